@@ -700,7 +700,16 @@ fn gen_batch(r: &mut Rng, names: &[(&str, &str)], rows: usize, first: bool) -> (
             // ints and floats may meet in one column
             match *ty {
                 "str" => {
-                    let (l, cells) = gen_column_cells(r, "str", rows, false);
+                    // since /repo 1c4a1c7 the last rows may leave a string column out (NULL padding)
+                    let (l, mut cells) = gen_column_cells(r, "str", rows, false);
+                    let mut l = l;
+                    if rows > 1 && r.chance(1, 3) {
+                        let k = r.usize(1, rows - 1);
+                        for c in cells.iter_mut().skip(rows - k) {
+                            *c = Cell::Null;
+                        }
+                        l = format!("str-short:{}", l);
+                    }
                     labels.push(l);
                     cols.push((name.to_string(), ColSpec::Rows(cells)));
                 }
@@ -804,6 +813,12 @@ impl Suite for Api {
                 let nb = r.usize(1, 3);
                 let mut seg = vec![];
                 for _ in 0..nb {
+                    // since /repo 1eb96cd a table buffer without rows is legal (and adds nothing)
+                    if !first && r.chance(1, 8) {
+                        labels.push("empty-table-buffer".to_string());
+                        seg.push(Batch { build_rows: true, wire: r.chance(1, 3), rows: 0, cols: vec![] });
+                        continue;
+                    }
                     let rows = match r.below(8) {
                         0 => *r.pick(&[1usize, 7, 8, 9, 63, 64, 65]),
                         1 => r.usize(100, 260),
